@@ -156,11 +156,29 @@ theorem mem_dropLeases {w i : Nat} {ls : List Lease} {l : Lease} : l ∈ dropLea
 
 theorem base_resched {s : State} (h : Base s) (w i : Nat) (d : Bool) : Base (resched s w i d) := by
   unfold resched
-  apply base_mapRows h
+  split
+  · exact h
+  · apply base_mapRows h
+    · intro r; split <;> rfl
+    · intro r; split <;> exact Nat.le_refl _
+    · intro r _; split <;> rfl
+    · intro l hl; exact h.leaseLt l (mem_dropLeases hl)
+
+theorem base_reschedRaw {s : State} (h : Base s) (i : Nat) (d : Bool) : Base (reschedRaw s i d) := by
+  unfold reschedRaw
+  apply base_mapRows h (ls := s.leases)
   · intro r; split <;> rfl
   · intro r; split <;> exact Nat.le_refl _
   · intro r _; split <;> rfl
-  · intro l hl; exact h.leaseLt l (mem_dropLeases hl)
+  · exact h.leaseLt
+
+theorem base_extendRaw {s : State} (h : Base s) (i : Nat) : Base (extendRaw s i) := by
+  unfold extendRaw
+  apply base_mapRows h (ls := s.leases) (c := s.clock)
+  · intro r; split <;> rfl
+  · intro r; split <;> exact Nat.le_refl _
+  · intro r _; split <;> rfl
+  · exact h.leaseLt
 
 theorem base_mature {s : State} (h : Base s) (i : Nat) : Base (mature s i) := by
   have := base_mapRows h (fun r => if r.id == i then { r with deliverable := true } else r) s.leases s.clock
@@ -179,21 +197,6 @@ theorem base_expire {s : State} (h : Base s) (i : Nat) : Base (expire s i) := by
     obtain ⟨l0, hl0, rfl⟩ := hl
     have := h.leaseLt l0 hl0
     split <;> simpa using this
-
-theorem base_extend {s : State} (h : Base s) (w i : Nat) : Base (extend s w i) := by
-  unfold extend
-  apply base_mapRows h (c := s.clock)
-  · intro r; split <;> rfl
-  · intro r; split <;> exact Nat.le_refl _
-  · intro r _; split <;> rfl
-  · intro l hl
-    split at hl
-    · simp only [List.mem_map] at hl
-      obtain ⟨l0, hl0, rfl⟩ := hl
-      have := h.leaseLt l0 hl0
-      split <;> simpa using this
-    · exact h.leaseLt l hl
-
 
 theorem base_ackRow {s : State} (h : Base s) (w i : Nat) : Base (ackRow s w i) := by
   obtain ⟨h1, h2, h3, h4, h5, h6, h7, h8⟩ := h
@@ -264,8 +267,8 @@ theorem base_claimRows {s : State} (h : Base s) (i v : Nat) : Base { s with rows
     (by intro r; split <;> simp) h.leaseLt
   exact this
 
-theorem base_addLease {s : State} (h : Base s) (l : Lease) (hl : l.id < s.nextId) :
-    Base { s with leases := l :: s.leases } := by
+theorem base_addLease {s : State} (h : Base s) (l : Lease) (hl : l.id < s.nextId) (ts : List Tok) :
+    Base { s with leases := l :: s.leases, toks := ts } := by
   obtain ⟨h1, h2, h3, h4, h5, h6, h7, h8⟩ := h
   constructor <;> simp only [List.mem_cons] <;> first | assumption | skip
   rintro l' (rfl | hl')
@@ -286,7 +289,7 @@ theorem base_claimSel {s : State} (h : Base s) (w : Nat) (c : Bool) : Base (clai
       have h1 := base_claimRows h0 x.id x.version
       split
       · refine base_addLease (s := { ({ ({ s with sels := dropSels w s.sels } : State) with
-            rows := claimRows s.rows x.id x.version } : State) with leases := dropLeases w r.id s.leases }) ?_ _ (h.idLt r hm)
+            rows := claimRows s.rows x.id x.version } : State) with leases := dropLeases w r.id s.leases }) ?_ _ (h.idLt r hm) _
         obtain ⟨g1, g2, g3, g4, g5, g6, g7, g8⟩ := h1
         exact ⟨g1, g2, g3, g4, g5, fun l hl => g6 l (mem_dropLeases hl), g7, g8⟩
       · split
@@ -301,7 +304,8 @@ theorem base_applyPrim {s : State} (h : Base s) (p : Prim) : Base (applyPrim s p
   · exact base_claimSel h _ _
   · exact base_ackRow h _ _
   · exact base_resched h _ _ _
-  · exact base_extend h _ _
+  · exact base_reschedRaw h _ _
+  · exact base_extendRaw h _
   · exact base_expire h _
   · exact base_mature h _
   · exact base_moveToDlq h _
@@ -442,6 +446,9 @@ theorem cons_applyPrim {s : State} (hb : Base s) (h : Cons s) (p : Prim) : Cons 
   · exact cons_sameRows h rfl rfl rfl rfl
   · exact cons_claimSel hb h _ _
   · exact cons_ackRow h _ _
+  · unfold resched; split
+    · exact h
+    · exact cons_mapRows h _ (by intro r; split <;> rfl) rfl rfl rfl rfl
   · exact cons_mapRows h _ (by intro r; split <;> rfl) rfl rfl rfl rfl
   · exact cons_mapRows h _ (by intro r; split <;> rfl) rfl rfl rfl rfl
   · exact cons_mapRows h _ (by intro r; split <;> rfl) rfl rfl rfl rfl
@@ -461,14 +468,18 @@ theorem cons_run {s : State} (hb : Base s) (h : Cons s) (ops : List Op) : Cons (
   | cons o os ih => exact ih (base_next hb o) (cons_applyPrims hb h _)
 
 
-/-! ### exclusivity (holds along disciplined runs) -/
+/-! ### exclusivity (holds after every op sequence that uses Messages handed out by poll_one) -/
 
 structure Excl (s : State) : Prop where
-  heldOfLive : ∀ l ∈ s.leases, l.live = true → ∀ r ∈ s.rows, r.id = l.id → r.lock = .held
+  heldOfLive : ∀ l ∈ s.leases, l.live = true → ∀ r ∈ s.rows, r.id = l.id → r.lock = .held ∧ r.version = l.ver
   selStale : ∀ x ∈ s.sels, ∀ l ∈ s.leases, l.live = true → l.id = x.id →
               ∀ r ∈ s.rows, r.id = x.id → x.version < r.version
   oneLive : s.leases.Pairwise (fun a b => ¬ (a.live = true ∧ b.live = true ∧ a.id = b.id))
   uniqWI : s.leases.Pairwise (fun a b => ¬ (a.w = b.w ∧ a.id = b.id))
+  leaseTok : ∀ l ∈ s.leases, (⟨l.w, l.id, l.ver⟩ : Tok) ∈ s.toks
+  tokLe : ∀ t ∈ s.toks, ∀ r ∈ s.rows, r.id = t.id → t.ver ≤ r.version
+  tokLt : ∀ t ∈ s.toks, t.id < s.nextId
+  tokUniq : ∀ a ∈ s.toks, ∀ b ∈ s.toks, a.id = b.id → a.ver = b.ver → a.w = b.w
 
 theorem excl_init (m : Nat) : Excl (init m) := by
   constructor <;> simp [init]
@@ -484,13 +495,15 @@ theorem pairwise_mem_ne {α} {R : α → α → Prop} (hs : ∀ a b, R a b → R
     · exact hs _ _ (h.1 a ha')
     · exact pairwise_mem_ne hs l h.2 a ha' b hb' ne
 
-/-- the primitive is allowed in a disciplined run -/
-def primOk (s : State) : Prim → Bool
-  | .resched w i _ | .extend w i => hasLive s w i
-  | _ => true
+theorem tokOf_mem {s : State} {w i v : Nat} (h : tokOf s w i = some v) : (⟨w, i, v⟩ : Tok) ∈ s.toks := by
+  simp only [tokOf, Option.map_eq_some_iff] at h
+  obtain ⟨t, ht, rfl⟩ := h
+  obtain ⟨hm, hp⟩ := find?_mem_key _ _ _ ht
+  simp only [Bool.and_eq_true, beq_iff_eq] at hp
+  cases t; simp_all
 
 theorem excl_pushRow {s : State} (hb : Base s) (h : Excl s) (m b : Nat) (d : Bool) : Excl (pushRow s m b d) := by
-  obtain ⟨e1, e2, e3, e4⟩ := h
+  obtain ⟨e1, e2, e3, e4, e5, e6, e7, e8⟩ := h
   have l6 := hb.leaseLt
   have l5 := hb.selLt
   constructor <;> simp only [pushRow, List.mem_append, List.mem_singleton] <;> first | assumption | skip
@@ -500,10 +513,14 @@ theorem excl_pushRow {s : State} (hb : Base s) (h : Excl s) (m b : Nat) (d : Boo
   · rintro x hx l hl hv hi r (hr | rfl) hri
     · exact e2 x hx l hl hv hi r hr hri
     · have := l5 x hx; simp at hri; omega
+  · rintro t ht r (hr | rfl) hi
+    · exact e6 t ht r hr hi
+    · have := e7 t ht; simp at hi; omega
+  · intro t ht; exact Nat.lt_succ_of_lt (e7 t ht)
 
 theorem excl_dropSel {s : State} (h : Excl s) (w : Nat) : Excl { s with sels := dropSels w s.sels } := by
-  obtain ⟨e1, e2, e3, e4⟩ := h
-  exact ⟨e1, fun x hx => e2 x (mem_dropSels hx), e3, e4⟩
+  obtain ⟨e1, e2, e3, e4, e5, e6, e7, e8⟩ := h
+  exact ⟨e1, fun x hx => e2 x (mem_dropSels hx), e3, e4, e5, e6, e7, e8⟩
 
 theorem excl_setSel {s : State} (h : Excl s) (w : Nat) : Excl (setSel s w) := by
   unfold setSel
@@ -511,11 +528,11 @@ theorem excl_setSel {s : State} (h : Excl s) (w : Nat) : Excl (setSel s w) := by
   · exact excl_dropSel h w
   · rename_i r hr
     obtain ⟨hm, he⟩ := candidate_mem hr
-    obtain ⟨e1, e2, e3, e4⟩ := h
-    refine ⟨e1, ?_, e3, e4⟩
+    obtain ⟨e1, e2, e3, e4, e5, e6, e7, e8⟩ := h
+    refine ⟨e1, ?_, e3, e4, e5, e6, e7, e8⟩
     simp only [List.mem_cons]
     rintro x (rfl | hx) l hl hv hi r' hr' hri
-    · have := e1 l hl hv r hm hi.symm
+    · have := (e1 l hl hv r hm hi.symm).1
       simp [eligible, this] at he
     · exact e2 x (mem_dropSels hx) l hl hv hi r' hr' hri
 
@@ -524,9 +541,10 @@ theorem excl_kill {s : State} : Excl (kill s) := by
 
 /-- rows only lose elements, leases are filtered, sels only lose elements -/
 theorem excl_shrink {s s' : State} (h : Excl s) (p : Lease → Bool)
-    (hr : ∀ r ∈ s'.rows, r ∈ s.rows) (hs : ∀ x ∈ s'.sels, x ∈ s.sels) (hl : s'.leases = s.leases.filter p) :
+    (hr : ∀ r ∈ s'.rows, r ∈ s.rows) (hs : ∀ x ∈ s'.sels, x ∈ s.sels) (hl : s'.leases = s.leases.filter p)
+    (ht : s'.toks = s.toks) (hn : s'.nextId = s.nextId) :
     Excl s' := by
-  obtain ⟨e1, e2, e3, e4⟩ := h
+  obtain ⟨e1, e2, e3, e4, e5, e6, e7, e8⟩ := h
   constructor
   · intro l hl' hv r hr' hi
     rw [hl] at hl'
@@ -536,24 +554,29 @@ theorem excl_shrink {s s' : State} (h : Excl s) (p : Lease → Bool)
     exact e2 x (hs x hx) l (List.mem_filter.mp hl').1 hv hi r (hr r hr') hri
   · rw [hl]; exact e3.filter _
   · rw [hl]; exact e4.filter _
+  · intro l hl'; rw [hl] at hl'; rw [ht]; exact e5 l (List.mem_filter.mp hl').1
+  · intro t ht' r hr' hi; rw [ht] at ht'; exact e6 t ht' r (hr r hr') hi
+  · intro t ht'; rw [ht] at ht'; rw [hn]; exact e7 t ht'
+  · rw [ht]; exact e8
 
 theorem filter_true_eq {α} (l : List α) : l.filter (fun _ => true) = l := by
   induction l <;> simp_all
 
 theorem excl_ackRow {s : State} (h : Excl s) (w i : Nat) : Excl (ackRow s w i) :=
-  excl_shrink h (fun l => !(l.w == w && l.id == i)) (fun r hr => (List.mem_filter.mp hr).1) (fun _ hx => hx) rfl
+  excl_shrink h (fun l => !(l.w == w && l.id == i)) (fun r hr => (List.mem_filter.mp hr).1) (fun _ hx => hx) rfl rfl rfl
 
 theorem excl_moveToDlq {s : State} (h : Excl s) (i : Nat) : Excl (moveToDlq s i) := by
   unfold moveToDlq
   split
   · exact h
-  · exact excl_shrink h (fun _ => true) (fun r hr => (List.mem_filter.mp hr).1) (fun _ hx => hx) (filter_true_eq _).symm
+  · exact excl_shrink h (fun _ => true) (fun r hr => (List.mem_filter.mp hr).1) (fun _ hx => hx)
+      (filter_true_eq _).symm rfl rfl
 
 theorem excl_replay {s : State} (hb : Base s) (h : Excl s) (d : Nat) : Excl (replay s d) := by
   unfold replay
   split
   · exact h
-  · obtain ⟨e1, e2, e3, e4⟩ := h
+  · obtain ⟨e1, e2, e3, e4, e5, e6, e7, e8⟩ := h
     have l6 := hb.leaseLt
     have l5 := hb.selLt
     constructor <;> simp only [List.mem_append, List.mem_singleton] <;> first | assumption | skip
@@ -563,25 +586,31 @@ theorem excl_replay {s : State} (hb : Base s) (h : Excl s) (d : Nat) : Excl (rep
     · rintro x hx l hl hv hi r (hr | rfl) hri
       · exact e2 x hx l hl hv hi r hr hri
       · have := l5 x hx; simp at hri; omega
+    · rintro t ht r (hr | rfl) hi
+      · exact e6 t ht r hr hi
+      · have := e7 t ht; simp at hi; omega
+    · intro t ht; exact Nat.lt_succ_of_lt (e7 t ht)
 
 /-- rows rewritten by a function that keeps id, lock and version -/
 theorem excl_mapRowsKeep {s : State} (h : Excl s) (f : Row → Row)
     (hid : ∀ r, (f r).id = r.id) (hlock : ∀ r, (f r).lock = r.lock) (hv : ∀ r, (f r).version = r.version) :
     Excl { s with rows := s.rows.map f } := by
-  obtain ⟨e1, e2, e3, e4⟩ := h
+  obtain ⟨e1, e2, e3, e4, e5, e6, e7, e8⟩ := h
   constructor <;> simp only [List.mem_map] <;> first | assumption | skip
   · rintro l hl hlv r' ⟨r, hr, rfl⟩ hi
-    rw [hid] at hi; rw [hlock]; exact e1 l hl hlv r hr hi
+    rw [hid] at hi; rw [hlock, hv]; exact e1 l hl hlv r hr hi
   · rintro x hx l hl hlv hi r' ⟨r, hr, rfl⟩ hri
     rw [hid] at hri; rw [hv]; exact e2 x hx l hl hlv hi r hr hri
+  · rintro t ht r' ⟨r, hr, rfl⟩ hi
+    rw [hid] at hi; rw [hv]; exact e6 t ht r hr hi
 
 theorem excl_mature {s : State} (h : Excl s) (i : Nat) : Excl (mature s i) := by
   unfold mature
   apply excl_mapRowsKeep h <;> intro r <;> split <;> rfl
 
 theorem excl_expire {s : State} (h : Excl s) (i : Nat) : Excl (expire s i) := by
-  obtain ⟨e1, e2, e3, e4⟩ := h
-  constructor <;> simp only [expire, List.mem_map, List.pairwise_map]
+  obtain ⟨e1, e2, e3, e4, e5, e6, e7, e8⟩ := h
+  constructor <;> simp only [expire, List.mem_map, List.pairwise_map] <;> first | assumption | skip
   · rintro l' ⟨l, hl, rfl⟩ hlv r' ⟨r, hr, rfl⟩ hi
     by_cases hli : l.id = i
     · simp [hli] at hlv
@@ -605,87 +634,56 @@ theorem excl_expire {s : State} (h : Excl s) (i : Nat) : Excl (expire s i) := by
   · refine e4.imp ?_
     intro a b hab
     split <;> split <;> simpa using hab
-
-
-theorem hasLive_spec {s : State} {w i : Nat} (h : hasLive s w i = true) :
-    ∃ l ∈ s.leases, l.w = w ∧ l.id = i ∧ l.live = true := by
-  simp only [hasLive, List.any_eq_true, Bool.and_eq_true, beq_iff_eq] at h
-  obtain ⟨l, hl, ⟨h1, h2⟩, h3⟩ := h
-  exact ⟨l, hl, h1, h2, h3⟩
+  · rintro l' ⟨l, hl, rfl⟩
+    have := e5 l hl
+    split <;> simpa using this
+  · rintro t ht r' ⟨r, hr, rfl⟩ hi
+    have hi' : r.id = t.id := by revert hi; split <;> simp
+    have := e6 t ht r hr hi'
+    split <;> simpa using this
 
 theorem oneLive_sym (a b : Lease) : ¬ (a.live = true ∧ b.live = true ∧ a.id = b.id) →
     ¬ (b.live = true ∧ a.live = true ∧ b.id = a.id) := fun h ⟨x, y, z⟩ => h ⟨y, x, z.symm⟩
 
-theorem uniqWI_sym (a b : Lease) : ¬ (a.w = b.w ∧ a.id = b.id) → ¬ (b.w = a.w ∧ b.id = a.id) :=
-  fun h ⟨x, y⟩ => h ⟨x.symm, y.symm⟩
-
-theorem excl_resched {s : State} (h : Excl s) (w i : Nat) (d : Bool) (ok : hasLive s w i = true) :
-    Excl (resched s w i d) := by
-  obtain ⟨e1, e2, e3, e4⟩ := h
-  obtain ⟨l0, hl0, hw0, hi0, hv0⟩ := hasLive_spec ok
-  constructor <;> simp only [resched, List.mem_map]
-  · rintro l hl hlv r' ⟨r, hr, rfl⟩ hi
-    have hl' := mem_dropLeases hl
-    have hnot : ¬ (l.w = w ∧ l.id = i) := by
-      have := (List.mem_filter.mp hl).2
-      intro ⟨a, b⟩
-      simp [a, b] at this
-    by_cases hri : r.id = i
-    · exfalso
-      have hli : l.id = i := by simp [hri] at hi; omega
-      have hne : l ≠ l0 := by
-        intro e; subst e; exact hnot ⟨hw0, hli⟩
-      exact pairwise_mem_ne oneLive_sym _ e3 l hl' l0 hl0 hne ⟨hlv, hv0, by omega⟩
-    · have hb : (r.id == i) = false := by simp [hri]
-      simp only [hb] at hi ⊢
-      exact e1 l hl' hlv r hr hi
-  · rintro x hx l hl hlv hi r' ⟨r, hr, rfl⟩ hri
-    have hri' : r.id = x.id := by revert hri; split <;> simp
-    have := e2 x hx l (mem_dropLeases hl) hlv hi r hr hri'
-    split <;> simpa using this
-  · exact e3.filter _
-  · exact e4.filter _
-
-theorem excl_extend {s : State} (h : Excl s) (w i : Nat) (ok : hasLive s w i = true) :
-    Excl (extend s w i) := by
-  obtain ⟨e1, e2, e3, e4⟩ := h
-  obtain ⟨l0, hl0, hw0, hi0, hv0⟩ := hasLive_spec ok
-  have hid : s.leases.map (fun l => if l.w == w && l.id == i then { l with live := true } else l) = s.leases := by
-    conv => rhs; rw [← List.map_id s.leases]
-    apply List.map_congr_left
-    intro l hl
-    split
-    · rename_i hc
-      simp only [Bool.and_eq_true, beq_iff_eq] at hc
-      have : l = l0 := by
-        apply Classical.byContradiction
-        intro hne
-        exact pairwise_mem_ne uniqWI_sym _ e4 l hl l0 hl0 hne ⟨by omega, by omega⟩
-      subst this
-      cases l; simp_all
-    · rfl
-  have hls : (extend s w i).leases = s.leases := by
-    simp only [extend]; split
-    · exact hid
-    · rfl
-  constructor
-  · rw [hls]
-    simp only [extend, List.mem_map]
-    rintro l hl hlv r' ⟨r, hr, rfl⟩ hi
-    split
-    · rfl
-    · rename_i hc
-      simp only [hc] at hi
-      exact e1 l hl hlv r hr hi
-  · rw [hls]
-    simp only [extend, List.mem_map]
-    rintro x hx l hl hlv hi r' ⟨r, hr, rfl⟩ hri
-    have hri' : r.id = x.id := by revert hri; split <;> simp
-    have := e2 x hx l hl hlv hi r hr hri'
-    split <;> simpa using this
-  · rw [hls]; exact e3
-  · rw [hls]; exact e4
-
+/-- **the repaired `reschedule`**: guarded by the caller's claim token it can only clear the caller's own lock -/
+theorem excl_resched {s : State} (h : Excl s) (w i : Nat) (d : Bool) : Excl (resched s w i d) := by
+  unfold resched
+  split
+  · exact h
+  · rename_i v hv
+    have htok := tokOf_mem hv
+    obtain ⟨e1, e2, e3, e4, e5, e6, e7, e8⟩ := h
+    constructor <;> simp only [List.mem_map] <;> first | assumption | skip
+    · rintro l hl hlv r' ⟨r, hr, rfl⟩ hi
+      have hl' := mem_dropLeases hl
+      have hnot : ¬ (l.w = w ∧ l.id = i) := by
+        have := (List.mem_filter.mp hl).2
+        intro ⟨a, b⟩
+        simp [a, b] at this
+      by_cases hc : r.id = i ∧ r.version = v
+      · exfalso
+        have hli : l.id = i := by simp [hc.1, hc.2] at hi; omega
+        have := (e1 l hl' hlv r hr (by omega)).2
+        have hw : l.w = w := e8 ⟨l.w, l.id, l.ver⟩ (e5 l hl') ⟨w, i, v⟩ htok hli (by show l.ver = v; omega)
+        exact hnot ⟨hw, hli⟩
+      · have hb : (r.id == i && r.version == v) = false := by
+          simp only [Bool.and_eq_false_iff, beq_eq_false_iff_ne, ne_eq]
+          by_cases h1 : r.id = i
+          · right; exact fun e => hc ⟨h1, e⟩
+          · left; exact h1
+        simp only [hb] at hi ⊢
+        exact e1 l hl' hlv r hr hi
+    · rintro x hx l hl hlv hi r' ⟨r, hr, rfl⟩ hri
+      have hri' : r.id = x.id := by revert hri; split <;> simp
+      have := e2 x hx l (mem_dropLeases hl) hlv hi r hr hri'
+      split <;> simpa using this
+    · exact e3.filter _
+    · exact e4.filter _
+    · intro l hl; exact e5 l (mem_dropLeases hl)
+    · rintro t ht r' ⟨r, hr, rfl⟩ hi
+      have hi' : r.id = t.id := by revert hi; split <;> simp
+      have := e6 t ht r hr hi'
+      split <;> simpa using this
 
 theorem mem_claimRows {rows : List Row} {i v : Nat} {r' : Row} (h : r' ∈ claimRows rows i v) :
     ∃ r ∈ rows, r'.id = r.id ∧ r.version ≤ r'.version ∧
@@ -702,18 +700,12 @@ theorem mem_claimRows {rows : List Row} {i v : Nat} {r' : Row} (h : r' ∈ claim
     simp only [Bool.and_eq_true, beq_iff_eq] at hc
     exact ⟨rfl, Nat.le_refl _, Or.inr ⟨hc, rfl⟩⟩
 
-theorem excl_claimRows {s : State} (h : Excl s) (w i v : Nat) :
-    Excl { ({ s with sels := dropSels w s.sels } : State) with rows := claimRows s.rows i v } := by
-  obtain ⟨e1, e2, e3, e4⟩ := h
-  refine ⟨?_, ?_, e3, e4⟩
-  · intro l hl hlv r' hr' hi
-    obtain ⟨r, hr, hid, _, hc | ⟨_, rfl⟩⟩ := mem_claimRows hr'
-    · exact hc.2.2.1
-    · exact e1 l hl hlv r' hr hi
-  · intro x hx l hl hlv hi r' hr' hri
-    obtain ⟨r, hr, hid, hver, _⟩ := mem_claimRows hr'
-    have := e2 x (mem_dropSels hx) l hl hlv hi r hr (by omega)
-    omega
+theorem mem_dropToks {w i : Nat} {ts : List Tok} {t : Tok} : t ∈ dropToks w i ts → t ∈ ts ∧ ¬ (t.w = w ∧ t.id = i) := by
+  simp only [dropToks, List.mem_filter]
+  intro ⟨h1, h2⟩
+  refine ⟨h1, ?_⟩
+  intro ⟨a, b⟩
+  simp [a, b] at h2
 
 theorem excl_claimSel {s : State} (hb : Base s) (h : Excl s) (w : Nat) (c : Bool) : Excl (claimSel s w c) := by
   unfold claimSel
@@ -726,45 +718,86 @@ theorem excl_claimSel {s : State} (hb : Base s) (h : Excl s) (w : Nat) (c : Bool
     · exact excl_dropSel h w
     · rename_i r hr
       obtain ⟨hm, hrid, hrv⟩ := matched_mem hr
-      have h1 := excl_claimRows h w x.id x.version
-      split
-      · -- a lease is handed out
-        have L0 : ∀ l ∈ s.leases, l.live = true → l.id ≠ x.id := by
-          intro l hl hlv e
-          have := h.selStale x hxs l hl hlv e r hm hrid
+      have L0 : ∀ l ∈ s.leases, l.live = true → l.id ≠ x.id := by
+        intro l hl hlv e
+        have := h.selStale x hxs l hl hlv e r hm hrid
+        omega
+      have hu := unique_of_pairwise (fun r : Row => r.id) s.rows hb.idNodup
+      obtain ⟨e1, e2, e3, e4, e5, e6, e7, e8⟩ := h
+      -- the state after the claim UPDATE (no lease handed out yet)
+      have h1 : Excl { ({ s with sels := dropSels w s.sels } : State) with rows := claimRows s.rows x.id x.version } := by
+        refine ⟨?_, ?_, e3, e4, e5, ?_, e7, e8⟩
+        · intro l hl hlv r' hr' hi
+          obtain ⟨r0, hr0, hid, _, hc | ⟨_, rfl⟩⟩ := mem_claimRows hr'
+          · exact absurd (by omega) (L0 l hl hlv)
+          · exact e1 l hl hlv r' hr0 hi
+        · intro x' hx' l hl hlv hi r' hr' hri
+          obtain ⟨r0, hr0, hid, hver, _⟩ := mem_claimRows hr'
+          have := e2 x' (mem_dropSels hx') l hl hlv hi r0 hr0 (by omega)
           omega
-        have hu := unique_of_pairwise (fun r : Row => r.id) s.rows hb.idNodup
-        obtain ⟨e1, e2, e3, e4⟩ := h1
+        · intro t ht r' hr' hi
+          obtain ⟨r0, hr0, hid, hver, _⟩ := mem_claimRows hr'
+          have := e6 t ht r0 hr0 (by omega)
+          omega
+      split
+      · -- a lease and a claim token are handed out
+        obtain ⟨f1, f2, f3, f4, f5, f6, f7, f8⟩ := h1
+        -- the claimed row now has version r.version + 1
+        have hnew : ∀ r' ∈ claimRows s.rows x.id x.version, r'.id = r.id → r'.lock = .held ∧ r'.version = r.version + 1 := by
+          intro r' hr' hi
+          obtain ⟨r0, hr0, hid, _, hc | ⟨hn, rfl⟩⟩ := mem_claimRows hr'
+          · have : r0 = r := hu r0 hr0 r hm (by omega)
+            subst this; exact ⟨hc.2.2.1, hc.2.2.2⟩
+          · have : r' = r := hu r' hr0 r hm hi
+            subst this; exact absurd ⟨hrid, hrv⟩ hn
         constructor <;> simp only [List.mem_cons, List.pairwise_cons]
         · rintro l (rfl | hl) hlv r' hr' hi
-          · obtain ⟨r0, hr0, hid, _, hc | ⟨hn, rfl⟩⟩ := mem_claimRows hr'
-            · exact hc.2.2.1
-            · have : r' = r := hu r' hr0 r hm (by simpa using hi)
-              subst this
-              exact absurd ⟨hrid, hrv⟩ hn
-          · exact e1 l (mem_dropLeases hl) hlv r' hr' hi
+          · exact hnew r' hr' hi
+          · exact f1 l (mem_dropLeases hl) hlv r' hr' hi
         · rintro x' hx' l (rfl | hl) hlv hi r' hr' hri
-          · obtain ⟨r0, hr0, hid, hver, hc | ⟨hn, rfl⟩⟩ := mem_claimRows hr'
-            · have : r0 = r := hu r0 hr0 r hm (by simp at hi; omega)
-              subst this
-              have := hb.selVer x' (mem_dropSels hx') r0 hm (by omega)
-              omega
-            · have : r' = r := hu r' hr0 r hm (by simp at hi; omega)
-              subst this
-              exact absurd ⟨hrid, hrv⟩ hn
-          · exact e2 x' hx' l (mem_dropLeases hl) hlv hi r' hr' hri
-        · refine ⟨?_, e3.filter _⟩
+          · have hv := (hnew r' hr' (by simp at hi; omega)).2
+            have := hb.selVer x' (mem_dropSels hx') r hm (by simp at hi; omega)
+            omega
+          · exact f2 x' hx' l (mem_dropLeases hl) hlv hi r' hr' hri
+        · refine ⟨?_, f3.filter _⟩
           intro l hl ⟨_, hlv, e⟩
           exact L0 l (mem_dropLeases hl) hlv (by omega)
-        · refine ⟨?_, e4.filter _⟩
+        · refine ⟨?_, f4.filter _⟩
           intro l hl ⟨ew, ei⟩
           have := (List.mem_filter.mp hl).2
           simp [← ew, ← ei] at this
+        · rintro l (rfl | hl)
+          · left; rfl
+          · right
+            have hin := f5 l (mem_dropLeases hl)
+            have hnot := (List.mem_filter.mp hl).2
+            simp only [dropToks, List.mem_filter]
+            exact ⟨hin, hnot⟩
+        · rintro t (rfl | ht) r' hr' hi
+          · exact Nat.le_of_eq (hnew r' hr' hi).2.symm
+          · exact f6 t (mem_dropToks ht).1 r' hr' hi
+        · rintro t (rfl | ht)
+          · exact hb.idLt r hm
+          · exact f7 t (mem_dropToks ht).1
+        · rintro a (rfl | ha) b (rfl | hb') hid hver
+          · rfl
+          · exfalso
+            have := e6 b (mem_dropToks hb').1 r hm (by simp at hid; omega)
+            simp at hver; omega
+          · exfalso
+            have := e6 a (mem_dropToks ha).1 r hm (by simp at hid; omega)
+            simp at hver; omega
+          · exact f8 a (mem_dropToks ha).1 b (mem_dropToks hb').1 hid hver
       · split
         · exact excl_moveToDlq h1 r.id
         · exact h1
 
-theorem excl_applyPrim {s : State} (hb : Base s) (h : Excl s) (p : Prim) (ok : primOk s p = true) :
+/-- primitives of the poll → release protocol (everything except the calls with a token-less Message) -/
+def primFree : Prim → Bool
+  | .reschedRaw _ _ | .extendRaw _ => false
+  | _ => true
+
+theorem excl_applyPrim {s : State} (hb : Base s) (h : Excl s) (p : Prim) (ok : primFree p = true) :
     Excl (applyPrim s p) := by
   cases p <;> simp only [applyPrim]
   · exact excl_pushRow hb h _ _ _
@@ -772,22 +805,14 @@ theorem excl_applyPrim {s : State} (hb : Base s) (h : Excl s) (p : Prim) (ok : p
   · exact excl_dropSel h _
   · exact excl_claimSel hb h _ _
   · exact excl_ackRow h _ _
-  · exact excl_resched h _ _ _ ok
-  · exact excl_extend h _ _ ok
+  · exact excl_resched h _ _ _
+  · simp [primFree] at ok
+  · simp [primFree] at ok
   · exact excl_expire h _
   · exact excl_mature h _
   · exact excl_moveToDlq h _
   · exact excl_replay hb h _
   · exact excl_kill
-
-
-/-- primitives whose admissibility does not depend on the state -/
-def primFree : Prim → Bool
-  | .resched _ _ _ | .extend _ _ => false
-  | _ => true
-
-theorem primOk_of_free {s : State} {p : Prim} (h : primFree p = true) : primOk s p = true := by
-  cases p <;> simp_all [primFree, primOk]
 
 theorem excl_applyPrims_free {s : State} (hb : Base s) (h : Excl s) (ps : List Prim)
     (hf : ∀ p ∈ ps, primFree p = true) : Excl (applyPrims s ps) := by
@@ -795,19 +820,19 @@ theorem excl_applyPrims_free {s : State} (hb : Base s) (h : Excl s) (ps : List P
   | nil => exact h
   | cons p ps ih =>
     have hp := hf p (by simp)
-    exact ih (base_applyPrim hb p) (excl_applyPrim hb h p (primOk_of_free hp)) (fun q hq => hf q (by simp [hq]))
+    exact ih (base_applyPrim hb p) (excl_applyPrim hb h p hp) (fun q hq => hf q (by simp [hq]))
 
 theorem applyPrims_append (s : State) (ps qs : List Prim) :
     applyPrims s (ps ++ qs) = applyPrims (applyPrims s ps) qs := by
   simp [applyPrims, List.foldl_append]
 
-theorem primsOf_free (s : State) (a : Act) (b : Option Nat)
-    (h1 : ∀ w i d, a ≠ .reschedule w i d) (h2 : ∀ w i, a ≠ .extend w i) :
+theorem primsOf_free (s : State) (a : Act) (b : Option Nat) (h : isRawAct a = false) :
     ∀ p ∈ primsOf s a b, primFree p = true := by
   intro p hp
   cases a <;> simp only [primsOf] at hp
-  case reschedule w i d => exact absurd rfl (h1 w i d)
-  case extend w i => exact absurd rfl (h2 w i)
+  case rescheduleRaw i d => simp [isRawAct] at h
+  case extendRaw i => simp [isRawAct] at h
+  case extend w i => simp at hp
   case sweep =>
     simp only [List.mem_map] at hp
     obtain ⟨i, _, rfl⟩ := hp
@@ -818,39 +843,19 @@ theorem primsOf_free (s : State) (a : Act) (b : Option Nat)
     | (rcases hp with h | h <;> (subst h; rfl))
     | (obtain ⟨_, h⟩ := hp; subst h; rfl)
 
-theorem excl_primsOf {s : State} (hb : Base s) (h : Excl s) (a : Act) (b : Option Nat)
-    (ok : disciplinedAct s a = true) : Excl (applyPrims s (primsOf s a b)) := by
-  by_cases h1 : ∃ w i d, a = .reschedule w i d
-  · obtain ⟨w, i, d, rfl⟩ := h1
-    simp only [primsOf]
-    split
-    · exact h
-    · exact excl_resched h w i d ok
-  · by_cases h2 : ∃ w i, a = .extend w i
-    · obtain ⟨w, i, rfl⟩ := h2
-      simp only [primsOf]
-      split
-      · exact h
-      · exact excl_extend h w i ok
-    · apply excl_applyPrims_free hb h
-      apply primsOf_free
-      · intro w i d e; exact h1 ⟨w, i, d, e⟩
-      · intro w i e; exact h2 ⟨w, i, e⟩
-
-theorem excl_next {s : State} (hb : Base s) (h : Excl s) (op : Op) (ok : disciplined s op = true) :
+theorem excl_next {s : State} (hb : Base s) (h : Excl s) (op : Op) (ok : isRaw op = false) :
     Excl (next s op) := by
   cases op with
-  | act a => exact excl_primsOf hb h a none ok
+  | act a => exact excl_applyPrims_free hb h _ (primsOf_free s a none ok)
   | crash a k =>
     simp only [next, opPrims, applyPrims_append]
     exact excl_kill
 
-theorem excl_run {s : State} (hb : Base s) (h : Excl s) (ops : List Op) (ok : disciplinedRun s ops = true) :
+theorem excl_run {s : State} (hb : Base s) (h : Excl s) (ops : List Op) (ok : ∀ op ∈ ops, isRaw op = false) :
     Excl (run s ops) := by
   induction ops generalizing s with
   | nil => exact h
   | cons o os ih =>
-    simp only [disciplinedRun, Bool.and_eq_true] at ok
-    exact ih (base_next hb o) (excl_next hb h o ok.1) ok.2
+    exact ih (base_next hb o) (excl_next hb h o (ok o (by simp))) (fun q hq => ok q (by simp [hq]))
 
 end Stab.Queue
